@@ -217,7 +217,7 @@ func runC06(a *A) {
 	a.Rule("ownmap/singleton-state", 3, func() { a.ruleSingletonState() })
 	a.Rule("ownmap/shared-state", 5, func() { a.ruleSharedState() })
 	a.Rule("flow/pooled-map-cleared", 1, func() { a.rulePooledMapsModule() })
-	a.Rule("flow/cache-stores-success-only", 4, func() { a.ruleCacheStoresSuccessOnly() })
+	a.Rule("flow/cache-stores-success-only", 2, func() { a.ruleCacheStoresSuccessOnly() })
 	a.Rule("ownmap/no-retained-vm", 1, func() { a.ruleNoRetainedVM() })
 	a.Rule("flow/memo-key-is-the-input", 4, func() { a.ruleMemoKeyIsTheInput() })
 	a.Rule("flow/cached-program-failure-falls-back", 1, func() { a.ruleCachedProgramFailureFallsBack() })
